@@ -150,6 +150,11 @@ func genCase(t *rapid.T, planted bool) *Case {
 		if p == nil {
 			t.Skip("no planting operator applicable")
 		}
+		if p.Op == "rpc-same-request-response" && rapid.Bool().Draw(t, "allowsame") {
+			// rpc_allow_same_request_response switches exactly this violation off
+			o.RPCAllowSame = true
+			p.Op, p.Sites = "rpc-same-request-response-allowed", nil
+		}
 		c.Plant = p
 	}
 	c.Options = o
